@@ -116,7 +116,7 @@ func (x *Exec) verifyFunc(fn *ssa.Function, c *FuncContract) (err error) {
 			continue
 		}
 		nret++
-		penv := &SpecEnv{x: x, st: o.st, old: x.entry, names: names, pkg: fn.Pkg.Pkg, results: o.results, sig: fn.Signature}
+		penv := &SpecEnv{x: x, st: o.st, old: x.entry, names: names, pkg: fn.Pkg.Pkg, results: o.results, sig: fn.Signature, witFr: o.fr}
 		for _, e := range c.Ensures {
 			x.oblige(o.st, "post", e.Label, penv.evalBool(e.E), fn.Pos())
 		}
@@ -157,55 +157,11 @@ func (x *Exec) frameObligations(st *State, env *SpecEnv, c *FuncContract, fn *ss
 		if strings.HasPrefix(name, "IT$") {
 			continue // iterator ghosts
 		}
-		sortS := x.heapSorts[name]
-		var exceptRefs []string
-		var exceptElems [][3]string // rid, lo, hi
-		whole := false
-		for _, a := range c.Assigns {
-			switch a.Kind {
-			case "heap":
-				if x.resolveHeapName(oldEnv, a.Heap) == name {
-					whole = true
-				}
-			case "field":
-				obj := oldEnv.eval(a.E)
-				ref, objT := x.objectOf(obj)
-				idx := fieldIndex(objT, a.Field)
-				if idx >= 0 {
-					n, _ := x.fieldHeapName(objT, idx)
-					if n == name {
-						exceptRefs = append(exceptRefs, ref)
-					}
-				}
-			case "elems":
-				s := oldEnv.eval(a.E)
-				if s.K == KSlice {
-					n, _ := x.elemHeapName(s.T.Underlying().(*types.Slice).Elem())
-					if n == name {
-						exceptElems = append(exceptElems, [3]string{s.Rid, s.Off, mkAdd(s.Off, s.Len)})
-					}
-				}
-			}
-		}
-		if whole {
+		fp := x.footprintFor(oldEnv, c.Assigns, name)
+		if fp != nil && fp.whole {
 			continue
 		}
-		var goal string
-		if strings.HasPrefix(sortS, "(Array Int (Array Int ") && strings.HasPrefix(name, "H$") {
-			var ex []string
-			for _, e := range exceptElems {
-				ex = append(ex, mkAnd(mkEq("r!f", e[0]), mkCmp("<=", e[1], "i!f"), mkCmp("<", "i!f", e[2])))
-			}
-			goal = fmt.Sprintf("(forall ((r!f Int) (i!f Int)) (=> (and (< 0 r!f) (< r!f alloc0) %s) (= (select (select %s r!f) i!f) (select (select %s r!f) i!f))))",
-				mkNot(mkOr(ex...)), final, init)
-		} else {
-			var ex []string
-			for _, r := range exceptRefs {
-				ex = append(ex, mkEq("r!f", r))
-			}
-			goal = fmt.Sprintf("(forall ((r!f Int)) (=> (and (< 0 r!f) (< r!f alloc0) %s) (= (select %s r!f) (select %s r!f))))",
-				mkNot(mkOr(ex...)), final, init)
-		}
+		goal := x.frameFormula(name, final, init, fp, "alloc0")
 		x.oblige(st, "frame", name, goal, fn.Pos())
 	}
 }
